@@ -278,7 +278,7 @@ def classify_double(node, Q, d, consts, helpers=None):
     return classify_double_out(out, Q, d, node.name)
 
 
-def polys_by_evaluation(world, f, nargs, Q, terms_only=False):
+def polys_by_evaluation(world, f, nargs, Q, terms_only=False, plain=False):
     """The coordinates returned by the formula function f on symbolic projective inputs, as
     polynomials - obtained with the forking evaluator (f and the arithmetic helpers it calls
     inlined), so any spelling the evaluator understands (comprehensions over literal tuples,
@@ -300,6 +300,9 @@ def polys_by_evaluation(world, f, nargs, Q, terms_only=False):
     for i in range(1, nargs + 1):
         x, y, z = (Sym("%s%d" % (c, i), "int") for c in "xyz")
         atoms.update({"x%d" % i: x, "y%d" % i: y, "z%d" % i: z})
+        if plain:
+            pts.append(TupleV([Sym("%s%d" % (c, i), "int") for c in "XYZT"]))
+            continue
         pts.append(TupleV([mk_app("Mult", (x, z)), mk_app("Mult", (y, z)), z, mk_app("Mult", (mk_app("Mult", (x, y)), z))]))
     outs = e2.run(f, pts, [], world.static.fork())
     if len(outs) != 1 or outs[0].kind != "return" or not isinstance(outs[0].value, TupleV) or len(outs[0].value.items) != 4:
@@ -680,6 +683,49 @@ def identity_repr_obligations(world, ev, t):
                                                                    "a value that is 0 only when it is 0 mod Q (a residue, a difference of two residues, or a product of such)" if not bad else
                                                                    "%s unnormalised: a result that is the identity with %s a non-zero multiple of Q is not recognised"
                                                                    % ("/".join(bad), "/".join(bad))),
+                    (g.mod.relpath, g.node.lineno, g.node.name)))
+    return out
+
+
+def _growth_degree(t, Q):
+    """Degree of t in the (unreduced) input coordinates: 0 for a value reduced mod Q or a constant, 1 for a
+    coordinate symbol, max over sums, sum over products."""
+    if isinstance(t, Const) or (is_app(t, "Mod") and len(t.args) == 2 and isinstance(t.args[1], Const)):
+        return 0
+    if isinstance(t, Sym):
+        return 1
+    if is_app(t, "Add", "Sub"):
+        return max(_growth_degree(a, Q) for a in t.args)
+    if is_app(t, "USub"):
+        return _growth_degree(t.args[0], Q)
+    if is_app(t, "Mult"):
+        return sum(_growth_degree(a, Q) for a in t.args)
+    if is_app(t, "pow") and len(t.args) == 3:
+        return 0
+    if is_app(t, "pow", "Pow") and len(t.args) == 2 and isinstance(t.args[1], Const) and isinstance(t.args[1].v, int) and t.args[1].v >= 0:
+        return _growth_degree(t.args[0], Q) * t.args[1].v
+    if isinstance(t, App):
+        return max([_growth_degree(a, Q) for a in t.args] or [0])
+    return 0
+
+
+def formula_growth_obligations(world, ev):
+    """A ladder feeds the coordinates a formula returns back into the formulas some 250 times.  If a returned
+    coordinate is a polynomial of degree >= 2 in the incoming coordinates *without a reduction on the way*, its
+    size squares with every step and no scalar multiplication by a full-size scalar ever finishes.  Each formula
+    function must therefore return coordinates of degree <= 1 in its unreduced inputs (normally 0: reduced mod Q).
+    -> [(instance, ok, detail, site)]"""
+    qn, Q = field_prime(world, ev)
+    out = []
+    for q, info in sorted(formula_functions(world, ev).items()):
+        if info.get("kind") not in ("add-complete", "add-dedicated", "double"):
+            continue
+        g = func_by_qual(world, q)
+        terms = polys_by_evaluation(world, g, len(g.node.args.args), Q, terms_only=True, plain=True)
+        degs = [_growth_degree(t, Q) for t in terms]
+        bad = ["XYZT"[i] + "3: degree %d" % d for i, d in enumerate(degs) if d >= 2]
+        out.append((g.node.name, not bad, "returned coordinates are reduced (degree <= 1 in the unreduced inputs): their size stays bounded along a ladder" if not bad else
+                    "returned coordinate(s) %s in the unreduced inputs: sizes square at every ladder step, a multiplication by a 250-bit scalar never finishes" % ", ".join(bad),
                     (g.mod.relpath, g.node.lineno, g.node.name)))
     return out
 
